@@ -293,6 +293,8 @@ Section StmtInd.
   Hypothesis Hfunc : forall f ps b, Forall P b -> P (SFunc f ps b).
   Hypothesis Hfexpr : forall self ps b, Forall P b -> P (SFuncExpr self ps b).
   Hypothesis Harrow : forall ps b, Forall P b -> P (SArrow ps b).
+  Hypothesis Heval : P SEval.
+  Hypothesis Hwith : forall b, Forall P b -> P (SWith b).
   Fixpoint stmt_ind' (s : stmt) : P s :=
     let go := fix go (l : list stmt) : Forall P l :=
                 match l with [] => Forall_nil P | x :: r => Forall_cons x (stmt_ind' x) (go r) end in
@@ -304,6 +306,8 @@ Section StmtInd.
     | SFunc f ps b => Hfunc f ps b (go b)
     | SFuncExpr self ps b => Hfexpr self ps b (go b)
     | SArrow ps b => Harrow ps b (go b)
+    | SEval => Heval
+    | SWith b => Hwith b (go b)
     end.
 End StmtInd.
 
@@ -344,11 +348,60 @@ Proof.
   - intros f ps b Hb. simpl. constructor; [apply fn_plain; exact Hb | constructor].
   - intros self ps b Hb. simpl. constructor; [apply fn_plain; exact Hb | constructor].
   - intros ps b Hb. simpl. constructor; [apply fn_plain; exact Hb | constructor].
+  - constructor.
+  - intros b Hb. simpl. constructor; [|constructor].
+    constructor; [constructor | constructor; [apply block_plain; exact Hb | constructor]].
+Qed.
+
+Fixpoint pin_forest (cs : list psk) : list psk * list travel :=
+  match cs with
+  | [] => ([], [])
+  | c :: r => let '(c', t1) := pin_psk c in let '(r', t2) := pin_forest r in (c' :: r', t1 ++ t2)
+  end.
+
+Lemma pin_psk_unfold fresh shared refs ch :
+  pin_psk (PSk fresh shared refs ch) =
+  let '(ch', below) := pin_forest ch in
+  let incoming := map (fun x => (x, false, false)) refs ++ below in
+  let '(pinned, out) := step_records (mem_name with_marker shared) (map fst fresh) shared incoming in
+  let all := has_eval (PSk fresh shared refs ch) in
+  let hoisted := map (fun x => (x, false, false))
+                     (filter (fun x => negb (name_eqb x with_marker || name_eqb x eval_marker)) shared) in
+  (PSk (map (fun p => (fst p, if all || mem_name (fst p) pinned then NsPinned else snd p)) fresh) shared refs ch', out ++ hoisted).
+Proof.
+  cbn [pin_psk].
+  assert (E : forall cs,
+    (fix go (cs : list psk) : list psk * list travel :=
+       match cs with
+       | [] => ([], [])
+       | c :: r => let '(c', t1) := pin_psk c in let '(r', t2) := go r in (c' :: r', t1 ++ t2)
+       end) cs = pin_forest cs).
+  { induction cs as [|c r IH]; simpl; [reflexivity|]. destruct (pin_psk c). rewrite IH. reflexivity. }
+  rewrite E. reflexivity.
+Qed.
+
+Lemma pin_plain k : psk_plain k -> psk_plain (fst (pin_psk k)).
+Proof.
+  induction k as [f s r ch IHch] using psk_ind'. intros PL. inversion PL as [? ? ? ? Pf Pch]; subst.
+  rewrite pin_psk_unfold.
+  assert (K : Forall psk_plain (fst (pin_forest ch))).
+  { clear PL. induction IHch as [|c l Hc Hl IH]; [constructor|].
+    inversion Pch as [|? ? Pc Pl]; subst. simpl.
+    specialize (Hc Pc). specialize (IH Pl).
+    destruct (pin_psk c) as [c' t1]. destruct (pin_forest l) as [r' t2].
+    simpl in *. constructor; assumption. }
+  destruct (pin_forest ch) as [ch' below]. simpl in K.
+  cbv zeta.
+  match goal with |- context [step_records ?a ?b ?c ?d] => destruct (step_records a b c d) as [pinned out] end.
+  simpl.
+  constructor; [|exact K].
+  apply Forall_forall. intros p Hp. apply in_map_iff in Hp as (q & <- & Hq). simpl.
+  destruct (_ || _); [right; reflexivity|]. rewrite Forall_forall in Pf. apply (Pf q Hq).
 Qed.
 
 Lemma closed_plain prog : psk_plain (closed_psk prog).
 Proof.
-  unfold closed_psk, module_psk. constructor.
+  unfold closed_psk, module_psk. apply pin_plain. constructor.
   - apply Forall_app. split; [apply dflt_plain | apply pinned_plain].
   - apply Forall_flat_map'. apply Forall_forall. intros s _. apply scopes_plain.
 Qed.
